@@ -21,7 +21,8 @@ RULE += (
     "child / grandchild) for an item that a sibling then flushes by hand in the same traversal - it must go on "
     "and join the pending batches before anything is flushed. In a third of the multi-kind programs some "
     "yields ask two batch kinds for the SAME key (the harness' request objects compare and hash by key, so "
-    "those items are equal but not identical)."
+    "those items are equal but not identical). Unit fanout: requests issued through async_call and "
+    "AsyncEventHook over 8 kinds of asynq callable travel in exactly one flush."
 )
 ASSUMPTIONS = ["the statement restricts itself to programs whose tasks interact only by yielding"]
 UNIT_TIMEOUT = {"quick": 150, "thorough": 2400}
